@@ -59,12 +59,36 @@ def rule_r1(chk, p, t):
     # ---- eci2coe
     e2c = p.func(f"{ORB}.conversions.eci2coe")
 
+    def _case_of(conds, inc_txts, ecc_txts):
+        """(inclined, eccentric) polarity on a path; ("infeasible", None) when one flag is tested with both polarities
+        (the path enumeration does not know that two tests of one flag agree)."""
+        inc = ecc = None
+        for c, pol in conds:
+            base, neg = c, False
+            while isinstance(base, ast.UnaryOp) and isinstance(base.op, ast.Not):
+                neg, base = not neg, base.operand
+            txt = unparse(base)
+            val = pol != neg
+            is_inc = txt in inc_txts or (isinstance(base, ast.Call) and call_name(base) == "isInclined")
+            is_ecc = txt in ecc_txts or (isinstance(base, ast.Call) and call_name(base) == "isEccentric")
+            if is_inc:
+                if inc is not None and inc != val:
+                    return "infeasible", None
+                inc = val
+            elif is_ecc:
+                if ecc is not None and ecc != val:
+                    return "infeasible", None
+                ecc = val
+        return inc, ecc
+
     def f1():
-        cr = _case_returns(e2c, {"inclined"}, {"eccentric"})
-        defs = {}
-        for n in walk_no_nested(e2c.node):
-            if isinstance(n, ast.Assign) and isinstance(n.targets[0], ast.Name):
-                defs.setdefault(n.targets[0].id, []).append(n.value)
+        # path-wise: on every path the returned 6-tuple, with the path's assignments substituted
+        from rsa.terms import NotEvaluable, returned_exprs
+
+        try:
+            paths = returned_exprs(e2c)
+        except NotEvaluable as e:
+            raise Undecided(f"eci2coe: {e}", e2c.node)
         exp_fn = {
             (True, True): ("getRightAscension", "getArgumentPerigee", "getTrueAnomaly"),
             (False, True): (None, "getTrueLongitudePeriapsis", "getTrueAnomaly"),
@@ -72,31 +96,35 @@ def rule_r1(chk, p, t):
             (False, False): (None, None, "getTrueLongitude"),
         }
         bad = []
-        for case in CASES:
-            rts = cr.get(case, [])
-            # the first return on the first matching path in source order decides
-            rts = sorted(set(rts), key=lambda n: n.lineno)
-            if not rts:
-                bad.append(f"case {case} has no return")
+        seen = set()
+        lead = set()
+        for e, conds in paths:
+            inc, ecc = _case_of(conds, {"inclined"}, {"eccentric"})
+            if inc == "infeasible":
                 continue
-            tup = rts[0].ast.value
-            if not (isinstance(tup, ast.Tuple) and len(tup.elts) == 6):
+            if inc is None or ecc is None:
+                raise Undecided("eci2coe: a return is not selected by the (inclined, eccentric) flags", e2c.node)
+            case = (inc, ecc)
+            seen.add(case)
+            if not (isinstance(e, ast.Tuple) and len(e.elts) == 6):
                 bad.append(f"case {case} does not return six elements")
                 continue
-            for slot, want in zip(tup.elts[3:], exp_fn[case]):
+            lead.add(tuple(unparse(x) for x in e.elts[:3]))
+            for slot, want in zip(e.elts[3:], exp_fn[case]):
                 if want is None:
                     if not _is_zero(slot):
-                        bad.append(f"case (inclined={case[0]}, eccentric={case[1]}): slot `{unparse(slot)}` should be 0.0 (undefined angle)")
-                else:
-                    d = defs.get(slot.id, []) if isinstance(slot, ast.Name) else []
-                    if not any(isinstance(v, ast.Call) and call_name(v) == want for v in d):
-                        bad.append(f"case (inclined={case[0]}, eccentric={case[1]}): slot `{unparse(slot)}` is not {want}(...)")
-            if [unparse(x) for x in tup.elts[:3]] != ["sma", "ecc", "inc"]:
-                bad.append(f"case {case}: leading elements {[unparse(x) for x in tup.elts[:3]]}")
+                        bad.append(f"case (inclined={case[0]}, eccentric={case[1]}): slot `{unparse(slot)[:40]}` should be 0.0 (undefined angle)")
+                elif not (isinstance(slot, ast.Call) and call_name(slot) == want):
+                    bad.append(f"case (inclined={case[0]}, eccentric={case[1]}): slot `{unparse(slot)[:40]}` is not {want}(...)")
+        for c in CASES:
+            if c not in seen:
+                bad.append(f"case {c} has no return")
+        if len(lead) > 1:
+            bad.append("the leading (a, e, i) differ between the cases")
         if bad:
-            r.violation(e2c.qualname, "cases:" + ";".join(bad), "eci2coe case split: " + "; ".join(bad), e2c.loc())
+            r.violation(e2c.qualname, "cases:" + ";".join(sorted(set(bad))), "eci2coe case split: " + "; ".join(sorted(set(bad))), e2c.loc())
         else:
-            r.ok(e2c.qualname, "four cases; zero pattern and defining angles in their slots", e2c.loc(), obligations=12)
+            r.ok(e2c.qualname, "four cases; zero pattern and defining angles in their slots (path-wise)", e2c.loc(), obligations=12)
 
     r.guard(e2c.qualname, f1)
     # ---- singularityCheck
@@ -141,47 +169,47 @@ def rule_r1(chk, p, t):
     fc = p.func(f"{ORB}.elements.ClassicalElements.fromConfig")
 
     def f3():
-        cfg = cfg_of(fc)
+        # path-wise: the constructor call each path returns, with the path's assignments substituted
+        from rsa.terms import NotEvaluable, returned_exprs
+
+        try:
+            paths = returned_exprs(fc)
+        except NotEvaluable as e:
+            raise Undecided(f"ClassicalElements.fromConfig: {e}", fc.node)
         cname = fc.params[1]
-        asg_nodes = [n for n in cfg.nodes if n.kind == "stmt" and isinstance(n.ast, ast.Assign) and isinstance(n.ast.targets[0], ast.Name) and n.ast.targets[0].id in ("raan", "argp", "anomaly")]
         want = {
-            (True, True): {"raan": "right_ascension", "argp": "argument_periapsis", "anomaly": "true_anomaly"},
-            (False, True): {"argp": "true_longitude_periapsis", "anomaly": "true_anomaly"},
-            (True, False): {"raan": "right_ascension", "anomaly": "argument_latitude"},
-            (False, False): {"anomaly": "true_longitude"},
+            (True, True): ("right_ascension", "argument_periapsis", "true_anomaly"),
+            (False, True): (None, "true_longitude_periapsis", "true_anomaly"),
+            (True, False): ("right_ascension", None, "argument_latitude"),
+            (False, False): (None, None, "true_longitude"),
         }
-        got = {c: {} for c in CASES}
-        for n in asg_nodes:
-            conjs = cfg.path_conditions(n.id)
-            fld = [x.attr for x in ast.walk(n.ast.value) if isinstance(x, ast.Attribute) and isinstance(x.value, ast.Name) and x.value.id == cname]
-            for c in CASES:
-                feasible = False
-                for conj in conjs:
-                    ok = True
-                    for node, lab in conj:
-                        if node.kind != "cond":
-                            continue
-                        txt = unparse(node.ast)
-                        if txt == f"{cname}.inclined" and lab != c[0]:
-                            ok = False
-                        if txt == f"{cname}.eccentric" and lab != c[1]:
-                            ok = False
-                    if ok:
-                        feasible = True
-                if feasible:
-                    got[c][n.ast.targets[0].id] = fld[0] if fld else unparse(n.ast.value)
-        # the else branch (no positive atom) is the remaining case: handled by control_conditions labels
-        bad = [f"case (inclined={c[0]}, eccentric={c[1]}): {got[c]} (expected {want[c]})" for c in CASES if got[c] != want[c]]
-        init = [n for n in walk_no_nested(fc.node) if isinstance(n, ast.Assign) and isinstance(n.targets[0], ast.Tuple) and [unparse(x) for x in n.targets[0].elts] == ["raan", "argp", "anomaly"]]
-        if not (init and all(_is_zero(x) for x in init[0].value.elts)):
-            bad.append("slots are not initialised to 0.0")
-        rets = [n for n in walk_no_nested(fc.node) if isinstance(n, ast.Return)]
-        if not (rets and unparse(rets[-1].value) == f"{fc.params[0]}(sma, ecc, inc, raan, argp, anomaly)"):
-            bad.append(f"constructor call `{unparse(rets[-1].value) if rets else None}`")
+        bad = []
+        seen = set()
+        for e, conds in paths:
+            inc, ecc = _case_of(conds, {f"{cname}.inclined"}, {f"{cname}.eccentric"})
+            if inc == "infeasible":
+                continue
+            if inc is None or ecc is None:
+                raise Undecided("ClassicalElements.fromConfig: a return is not selected by config.inclined / config.eccentric", fc.node)
+            case = (inc, ecc)
+            seen.add(case)
+            if not (isinstance(e, ast.Call) and unparse(e.func) == fc.params[0] and len(e.args) == 6):
+                bad.append(f"constructor call `{unparse(e)[:70]}`")
+                continue
+            for slot, w in zip(e.args[3:], want[case]):
+                flds = [x.attr for x in ast.walk(slot) if isinstance(x, ast.Attribute) and isinstance(x.value, ast.Name) and x.value.id == cname]
+                if w is None:
+                    if not _is_zero(slot):
+                        bad.append(f"case (inclined={case[0]}, eccentric={case[1]}): `{unparse(slot)[:40]}` should be 0.0")
+                elif flds != [w]:
+                    bad.append(f"case (inclined={case[0]}, eccentric={case[1]}): slot is `{unparse(slot)[:50]}` (expected the configured {w})")
+        for c in CASES:
+            if c not in seen:
+                bad.append(f"case {c} has no return")
         if bad:
-            r.violation(fc.qualname, "cases:" + ";".join(bad), "ClassicalElements.fromConfig case split: " + "; ".join(bad), fc.loc())
+            r.violation(fc.qualname, "cases:" + ";".join(sorted(set(bad))), "ClassicalElements.fromConfig case split: " + "; ".join(sorted(set(bad))), fc.loc())
         else:
-            r.ok(fc.qualname, "four cases; configured angles land in the slots eci2coe / singularityCheck use", fc.loc(), obligations=12)
+            r.ok(fc.qualname, "four cases; configured angles land in the slots eci2coe / singularityCheck use (path-wise)", fc.loc(), obligations=12)
 
     r.guard(fc.qualname, f3)
     # ---- COEStateConfig.validate_elements
@@ -385,12 +413,35 @@ def rule_r3(chk, p, t):
             r.ok(wa.qualname, "wrapAngle2Pi(func(...))", wa.loc())
         else:
             r.violation(wa.qualname, f"wrap_anomaly:{unparse(rw[0].value) if rw else None}", "wrap_anomaly no longer returns wrapAngle2Pi(func(...))", wa.loc())
-        rc = [n for n in walk_no_nested(inner_c[0].node) if isinstance(n, ast.Return)]
-        want = canon(ast.parse("anomaly if not isEccentric(ecc) else func(anomaly, ecc, *args, **kwargs)", mode="eval").body)
-        if rc and canon(rc[0].value) == want:
-            r.ok(ce.qualname, "circular orbit: the anomaly is returned unchanged", ce.loc())
+        # path-wise: eccentric -> the conversion, circular -> the input anomaly itself
+        from rsa.terms import NotEvaluable, returned_exprs
+
+        try:
+            paths = returned_exprs(inner_c[0])
+        except NotEvaluable as e:
+            raise Undecided(f"check_ecc wrapper: {e}", inner_c[0].node)
+        a0, e0 = inner_c[0].params[0], inner_c[0].params[1]
+        ok = len(paths) == 2
+        got = []
+        for e, conds in paths:
+            ecc = None
+            for c, pol in conds:
+                txt = unparse(c)
+                if txt == f"isEccentric({e0})":
+                    ecc = pol
+                elif txt == f"not isEccentric({e0})":
+                    ecc = not pol
+            got.append((ecc, unparse(e)))
+            if ecc is True:
+                ok = ok and unparse(e) == f"func({a0}, {e0}, *args, **kwargs)"
+            elif ecc is False:
+                ok = ok and unparse(e) == a0
+            else:
+                ok = False
+        if ok:
+            r.ok(ce.qualname, "circular orbit: the anomaly is returned unchanged (path-wise)", ce.loc())
         else:
-            r.violation(ce.qualname, f"check_ecc:{unparse(rc[0].value) if rc else None}", "check_ecc no longer returns the input anomaly for circular orbits and the conversion otherwise", ce.loc())
+            r.violation(ce.qualname, f"check_ecc:{got}", "check_ecc no longer returns the input anomaly for circular orbits and the conversion otherwise", ce.loc())
 
     r.guard("decorators", decs)
 
@@ -574,10 +625,14 @@ def rule_r6(chk, p, t):
             bad.append(f"true anomaly = `{unparse(tav)[:80] if tav is not None else None}` (expected meanLong2TrueAnom({ml}, ecc, raan, argp, retro={retro}))")
         rets = [n for n in walk_no_nested(g.node) if isinstance(n, ast.Return) and n.value is not None]
         sc = [n for n in walk_no_nested(g.node) if isinstance(n, ast.Assign) and isinstance(n.value, ast.Call) and call_name(n.value) == "singularityCheck"]
-        if not (len(sc) == 1 and [unparse(a) for a in sc[0].value.args] == ["ecc", "inc", "raan", "argp", "true_anom"] and unparse(sc[0].targets[0]) == "(raan, argp, true_anom)"):
-            bad.append("the recovered angles do not pass through singularityCheck(ecc, inc, raan, argp, true_anom) -> (raan, argp, true_anom)")
-        if not (len(rets) == 1 and unparse(rets[0].value) == f"({sma}, ecc, inc, raan, argp, true_anom)"):
-            bad.append(f"return `{unparse(rets[0].value)[:70] if rets else None}`")
+        star_form = len(rets) == 1 and unparse(rets[0].value) == f"({sma}, ecc, inc, *singularityCheck(ecc, inc, raan, argp, true_anom))"
+        if star_form:
+            pass  # `return a, e, i, *singularityCheck(...)`: the check's (raan, argp, anomaly) fill slots 3-5 in order
+        else:
+            if not (len(sc) == 1 and [unparse(a) for a in sc[0].value.args] == ["ecc", "inc", "raan", "argp", "true_anom"] and unparse(sc[0].targets[0]) == "(raan, argp, true_anom)"):
+                bad.append("the recovered angles do not pass through singularityCheck(ecc, inc, raan, argp, true_anom) -> (raan, argp, true_anom)")
+            if not (len(rets) == 1 and unparse(rets[0].value) == f"({sma}, ecc, inc, raan, argp, true_anom)"):
+                bad.append(f"return `{unparse(rets[0].value)[:70] if rets else None}`")
         if bad:
             r.violation(g.qualname, "eqe2coe:" + ";".join(b[:50] for b in bad), "eqe2coe does not invert coe2eqe: " + "; ".join(bad), g.loc())
         else:
